@@ -230,6 +230,22 @@ fn sizes(ctx: &mut Ctx) {
         ctx.expect_eq("map.new.accepts_missing_file", || "MemoryMap::new on a missing file is refused".to_string(), &guard(|| MemoryMap::new(&name, MappingMode::ReadOnly).is_err()), &true);
         ctx.case(hash64(&[4]), true);
     }
+    // Things that are not regular files with content: a directory, character devices, a file whose reported size is 0
+    // although it has content. Whatever happens must be an error or a valid map (usable for its whole length) - never a
+    // panic, never a map with an invalid pointer.
+    if ctx.mine(3) && ctx.begin_case() && !cfg!(miri) {
+        for path in [ctx.tmpdir.clone(), "/dev/null".to_string(), "/dev/zero".to_string(), "/proc/self/status".to_string(), "/".to_string()] {
+            for mode in [MappingMode::ReadOnly, MappingMode::Mutable] {
+                ctx.checks += 1;
+                match guard(|| MemoryMap::new(&path, mode).map(|m| { let s: &[u64] = m.as_ref(); (s.len(), s.iter().fold(0u64, |a, b| a ^ b), m.len()) })) {
+                    Ok(Err(_)) => ctx.count("odd_paths.refused", 1),
+                    Ok(Ok((slice_len, _, len))) => { ctx.count("odd_paths.mapped", 1); if slice_len != len { ctx.violation("map.odd_path.len", format!("MemoryMap::new({:?}, {:?}): slice of {} elements, len() = {}", path, mode, slice_len, len)); } },
+                    Err(p) => ctx.violation("map.new.odd_path!panic", format!("MemoryMap::new({:?}, {:?}) panicked: {}", path, mode, p)),
+                }
+            }
+        }
+        ctx.case(hash64(&[5]), true);
+    }
 }
 
 fn cycles(ctx: &mut Ctx) {
